@@ -26,6 +26,19 @@ fn build_opts(c: &Value) -> Opts {
     if c.get("optsvia").and_then(|x| x.as_str()) == Some("explicit") {
         return opts_of(&json!({"name": name, "help": help, "const_map": c.get("const").cloned().unwrap_or(json!([])) }));
     }
+    // three and four label maps (the macro takes any number)
+    if c.get("const3").is_some() {
+        let p3 = pairs(c.get("const3"));
+        let p4 = pairs(c.get("const4"));
+        let c3: HashMap<&str, &str> = p3.iter().map(|(k, v)| (k.as_str(), v.as_str())).collect();
+        let c4: HashMap<&str, &str> = p4.iter().map(|(k, v)| (k.as_str(), v.as_str())).collect();
+        return match (c.get("const4").is_some(), tc) {
+            (false, false) => opts!(name, help, c1, c2, c3),
+            (false, true) => opts!(name, help, c1, c2, c3,),
+            (true, false) => opts!(name, help, c1, c2, c3, c4),
+            (true, true) => opts!(name, help, c1, c2, c3, c4,),
+        };
+    }
     match (c.get("const").is_some(), c.get("const2").is_some(), tc) {
         (false, _, false) => opts!(name, help),
         (false, _, true) => opts!(name, help,),
